@@ -18,9 +18,47 @@ TRUSTED = ["site metadata (provider name unique per fn::open expression, contain
            "the generator"]
 
 
+def merged_unknown_family(rng, tier):
+    """provider inputs that are a reference to an object which INHERITS an unknown part from an imported base (the gate
+    must look at the merged value, not at the object's own properties), in several shapes"""
+    cases = []
+    unknowns = [("sym", [("name", "nope")]), ("open", "pfail", ("obj", [("k", ("str", "v"))])), ("cipher", G.envelope_repr(b"!undecryptable"))]
+    for ui, unk in enumerate(unknowns):
+        for shape in range(6):
+            for in_s in ("always", {"props": {"region": "string"}, "required": [], "closed": False}):
+                if shape == 0:      # own object merged over an imported object with an unknown member
+                    base_vals = [("cfg", ("obj", [("token", unk), ("region", ("str", "us"))]))]
+                    root_vals = [("cfg", ("obj", [("extra", ("num", "1"))])), ("v", ("open", "p", ("sym", [("name", "cfg")])))]
+                elif shape == 1:    # unknown two levels down in the base
+                    base_vals = [("cfg", ("obj", [("a", ("obj", [("deep", unk)])), ("region", ("str", "us"))]))]
+                    root_vals = [("cfg", ("obj", [("a", ("obj", [("own", ("num", "1"))]))])), ("v", ("open", "p", ("sym", [("name", "cfg")])))]
+                elif shape == 2:    # literal inputs whose member is the merged object
+                    base_vals = [("cfg", ("obj", [("token", unk)]))]
+                    root_vals = [("cfg", ("obj", [("extra", ("num", "1"))])), ("v", ("open", "p", ("obj", [("region", ("str", "us")), ("c", ("sym", [("name", "cfg")]))])))]
+                elif shape == 3:    # the inputs literal itself sits over an imported object (same key path as the import)
+                    base_vals = [("v", ("obj", [("token", unk)]))]
+                    root_vals = [("w", ("open", "p", ("sym", [("name", "v")])))]
+                elif shape == 4:    # unknown inside an array of the base object (arrays are replaced, not merged)
+                    base_vals = [("cfg", ("obj", [("list", ("arr", [unk, ("str", "x")]))]))]
+                    root_vals = [("cfg", ("obj", [("extra", ("num", "1"))])), ("v", ("open", "p", ("sym", [("name", "cfg")])))]
+                else:               # control: the base member is overridden by a known value of the importer
+                    base_vals = [("cfg", ("obj", [("token", unk)]))]
+                    root_vals = [("cfg", ("obj", [("token", ("str", "known"))])), ("v", ("open", "p", ("sym", [("name", "cfg")])))]
+                envs = {"base": {"imports": [], "values": base_vals}, "root": {"imports": [("base", True)], "values": root_vals}}
+                c = G.case_from_graph(envs, "root")
+                c["provs"] = {"p": {"in": in_s, "out": "always", "beh": "echo"},
+                              "pfail": {"in": "always", "out": "always", "beh": "fail"}}
+                c["sites"] = [{"prov": "p", "env": "root", "literal_inputs": None}]
+                if ui == 1:
+                    c["sites"].append({"prov": "pfail", "env": "base", "literal_inputs": [("k", ("str", "v"))]})
+                c["check"] = False
+                cases.append(c)
+    return cases
+
+
 def gen(rng, tier):
     n = 5000 if tier == "thorough" else 450
-    cases = []
+    cases = merged_unknown_family(rng, tier)
     for i in range(n):
         clean = rng.chance(2, 3)
         g = G.RichGen(rng.fork("w%d" % i), bad_refs=not clean, nonobject_inputs=not clean, faulty=not clean)
